@@ -151,6 +151,17 @@ GETTER = {
 SPEC_ALIAS = {"RFVoltage": "AcceleratingVoltage", "SyncFreq": "SynchrotronFrequency", "steps": "StepsPerTs"}
 
 
+def alias_names():
+    """{current name: legacy name}: what the property calls legacy names (SPEC_ALIAS) plus whatever the table declares -
+    the generators use legacy names in files even when the table read from the source no longer knows them"""
+    tab = info()["table"]
+    res = {cn: a for a, cn in SPEC_ALIAS.items() if cn in tab}
+    for o in tab.values():
+        if o["kind"] == "KAlias" and o.get("canon") in tab:
+            res.setdefault(o["canon"], o["name"])
+    return res
+
+
 def label_of(o):
     """harness label through which the value of option o is observed"""
     if o["kind"] == "KCanon":
@@ -193,6 +204,7 @@ class OptCase:
         self.cid = cid
         self.cli = []        # dicts: kind 'L'|'S', name (as spelled), toks [text], opt (intended table name or None)
         self.stray = []      # (position in cli list, text): bare tokens on the command line
+        self.xcli = []       # extra command-line options of a second reload: `inovesa <xcli> --config saved.cfg`
         self.dflt = None     # items of ./default.cfg or None
         self.cfg = None      # dict(file=text, state='devnull'|'missing'|'file', items=[(name,[text])])
         self.tags = set()
@@ -230,9 +242,19 @@ class OptCase:
         av += stray.get(len(self.cli), [])
         return av
 
+    def xargv(self):
+        av = []
+        for c in self.xcli:
+            av.append(("--" if c["kind"] == "L" else "-") + c["name"])
+            av += c["toks"]
+        return av
+
     def replay(self):
-        return dict(kind="options", id=self.cid, argv=self.argv(), default_cfg=self.dflt, config=self.cfg,
-                    tags=sorted(self.tags))
+        r = dict(kind="options", id=self.cid, argv=self.argv(), default_cfg=self.dflt, config=self.cfg,
+                 tags=sorted(self.tags))
+        if self.xcli:
+            r["reload_argv"] = self.xargv()
+        return r
 
     def replay_raw(self):
         return dict(kind="options", id=self.cid, argv=self.raw_argv, default_cfg=self.dflt, config=self.cfg, tags=sorted(self.tags))
@@ -244,7 +266,24 @@ class OptCase:
         c.dflt = [tuple(x) for x in rp["default_cfg"]] if rp.get("default_cfg") is not None else None
         c.cfg = rp.get("config")
         c.tags = set(rp.get("tags", []))
+        c.raw_xargv = rp.get("reload_argv") or []
+        c.xcli = cli_of(c.raw_xargv)          # for the oracle of the reload with extra options
         return c
+
+
+def cli_of(av):
+    """option occurrences of a plain argv tail (`--name v ...`, `-x v ...`; a word starting with - and not a number opens one)"""
+    res, i = [], 0
+    while i < len(av):
+        nm = av[i]
+        j = i + 1
+        while j < len(av) and not (av[j].startswith("-") and not av[j][1:2].isdigit() and av[j] != "-"):
+            j += 1
+        kind = "L" if nm.startswith("--") else "S"
+        o = spec_resolve(nm.lstrip("-"), kind)
+        res.append(dict(kind=kind, name=nm.lstrip("-"), toks=av[i + 1:j], opt=o["name"] if o else None))
+        i = j
+    return res
 
 
 def esc(s):
@@ -288,6 +327,7 @@ def model_text(c):
         else:
             L.append("cfg %d %s" % (t, c.cfg["state"]))
     reload_tok = c.tid("saved.cfg")
+    xseq = ["%s %s %d %s" % (x["kind"], x["name"], len(x["toks"]), " ".join(str(c.tid(t)) for t in x["toks"])) for x in c.xcli]
     # oracles over every (type, token) pair that can meet
     types = sorted(set(o["ty"] for o in inf["table"].values() if o["ty"] != "TFlag"))
     bad, zeros, rounds = [], [], []
@@ -322,6 +362,7 @@ def model_text(c):
     L.append("%d %s" % (len(zeros), " ".join(zeros)))
     L.append("%d %s" % (len(rounds), " ".join(rounds)))
     L.append(str(reload_tok))
+    L.append(" ".join([str(len(xseq))] + xseq))
     return "\n".join(L) + "\n"
 
 
@@ -341,7 +382,10 @@ def run_cases(ctx, cases, tg=None):
                 with open(os.path.join(wd, c.cfg["file"]), "w") as f:
                     f.write(cfg_text(c.cfg["items"]))
             av = getattr(c, "raw_argv", None) or c.argv()
-            itext.append("opt %s %s %d %s" % (c.cid, esc(wd), len(av), " ".join(esc(a) for a in av)))
+            xav = getattr(c, "raw_xargv", None) if hasattr(c, "raw_argv") else c.xargv()
+            xav = xav or []
+            itext.append("opt %s %s %d %s %d %s" % (c.cid, esc(wd), len(av), " ".join(esc(a) for a in av),
+                                                    len(xav), " ".join(esc(a) for a in xav)))
             if not hasattr(c, "raw_argv"):
                 mtext.append(model_text(c))
         rc, out, err = run_driver(tg["impl_options"], "\n".join(itext) + "\n", timeout=900)
@@ -492,6 +536,19 @@ def compare(c, res, by_getter=True):
                 continue
             if not same(v, iv[g]):
                 d.append("reload var %s (getter %s): model %r, impl %r" % (k, g, v, iv[g]))
+    if c.xcli and status(m, "r") == "run":
+        if not m.get("xstatus") or not i.get("xstatus"):
+            d.append("reload with extra options: missing output (model %s, impl %s)" % (bool(m.get("xstatus")), bool(i.get("xstatus"))))
+        elif status(m, "x") != status(i, "x"):
+            d.append("reload with extra options %s: status model %s, impl %s" % (c.xargv(), status(m, "x"), status(i, "x")))
+        elif status(m, "x") == "run":
+            mv, iv = model_vars(c, m, "x"), impl_vars(i, "x")
+            for k, v in mv.items():
+                g = lbl.get(k, k)
+                if k in UNINIT or g not in iv or v is None:
+                    continue
+                if not same(v, iv[g]):
+                    d.append("reload with extra options %s: var %s (getter %s): model %r, impl %r" % (c.xargv(), k, g, v, iv[g]))
     return d
 
 
@@ -533,7 +590,7 @@ def gen_case(ctx, cid, kind):
     tab = inf["table"]
     c = OptCase(cid)
     canon = [o for o in tab.values() if o["kind"] == "KCanon" and o["name"] != inf["cfgopt"]]
-    aliases = {o["canon"]: o for o in tab.values() if o["kind"] == "KAlias"}
+    aliases = alias_names()
     ignored = [o for o in tab.values() if o["kind"] == "KIgnored"]
     cli_names = [o["name"] for o in tab.values() if o["cli"]]
     k = rng.choice([0, 1, 2, 3, 5, 8, 14, 30]) if kind != "short" else rng.choice([0, 1, 2])
@@ -572,7 +629,7 @@ def gen_case(ctx, cid, kind):
         if where in ("cfg", "both"):
             nm = o["name"]
             if o["name"] in aliases and (kind == "alias" or rng.random() < 0.3):
-                nm = aliases[o["name"]]["name"]
+                nm = aliases[o["name"]]
                 c.tags.add("alias")
                 if where == "both":
                     c.tags.add("alias-in-cfg-canonical-on-cli")
@@ -664,6 +721,195 @@ def inject(ctx, c):
         file_items.append((o["name"], ["-7"]))
 
 
+# ------------------------------------------------------------------------------------ case splits of the alias / reload theorems
+
+ALIAS_SCENARIOS = ["both-names", "both-names-cli", "shadowed-malformed", "shadowed-legal", "alias-malformed", "alias-repeated",
+                   "alias-plain", "both-names-malformed"]
+
+
+def gen_alias2(ctx, cid, scenario=None):
+    """aimed at the case splits of alias_equivalence / both_names_current_wins (Props/Properties_C20.v): one to three options
+    that have a legacy name, each in one of the scenarios; a few other options around them; the file is run.cfg or ./default.cfg"""
+    rng = ctx.rng
+    inf = info()
+    tab = inf["table"]
+    c = OptCase(cid)
+    aliases = {cn: dict(name=a) for cn, a in alias_names().items()}
+    canon = [o for o in tab.values() if o["kind"] == "KCanon" and o["name"] != inf["cfgopt"] and o["name"] not in aliases
+             and o["ty"] != "TFlag"]
+    items = []
+    for cn in rng.sample(sorted(aliases), rng.randint(1, len(aliases))):
+        o, a = tab[cn], aliases[cn]
+        sc = scenario or rng.choice(ALIAS_SCENARIOS)
+        c.tags.add("alias")
+        c.tags.add("sc:" + sc)
+        pool = LEGAL[o["ty"]]
+        legal = lambda: [rng.choice(pool)] if o["ty"] != "TVecFloat" else [rng.choice(pool) for _ in range(rng.randint(1, 3))]
+        bad = lambda: [rng.choice([b for b in BAD[o["ty"]] if " " not in b])]
+
+        def cli_current():
+            k = "S" if o["short"] and rng.random() < 0.5 else "L"
+            c.cli.append(dict(kind=k, name=o["short"] if k == "S" else o["name"], toks=legal(), opt=o["name"]))
+            c.tags.add("alias-in-cfg-canonical-on-cli")
+        if sc in ("both-names", "both-names-cli", "both-names-malformed"):
+            two = [(a["name"], bad() if sc == "both-names-malformed" else legal()), (o["name"], legal())]
+            rng.shuffle(two)
+            items += two
+            if sc == "both-names-cli":
+                cli_current()
+        elif sc == "shadowed-malformed":
+            items.append((a["name"], bad()))
+            cli_current()
+        elif sc == "shadowed-legal":
+            items.append((a["name"], legal()))
+            cli_current()
+        elif sc == "alias-malformed":
+            items.append((a["name"], bad()))
+        elif sc == "alias-repeated":
+            items += [(a["name"], legal()), (a["name"], legal())]
+        else:
+            items.append((a["name"], legal()))
+    for o in rng.sample(canon, rng.choice([0, 1, 3, 6])):
+        ts = [rng.choice(LEGAL[o["ty"]])]
+        if o["file"] and rng.random() < 0.6:
+            items.append((o["name"], ts))
+        elif o["cli"]:
+            c.cli.append(dict(kind="L", name=o["name"], toks=[] if o["implicit"] else ts, opt=o["name"]))
+    rng.shuffle(items)
+    rng.shuffle(c.cli)
+    if rng.random() < 0.25:
+        c.dflt = items
+        c.tags.add("default.cfg")
+    else:
+        c.cfg = dict(file="run.cfg", state="file", items=items)
+        c.cli.insert(rng.randint(0, len(c.cli)), dict(kind="L", name="config", toks=["run.cfg"], opt=inf["cfgopt"]))
+    return c
+
+
+def rename_file(items):
+    return [(SPEC_ALIAS.get(n, n), ts) for n, ts in items]
+
+
+def alias_twin(c):
+    """the same invocation with every legacy name of its files replaced by the current name"""
+    t = OptCase(c.cid + "t")
+    t.cli = [dict(x) for x in c.cli]
+    t.stray = list(c.stray)
+    t.toks = dict(c.toks)
+    t.tags = set(c.tags) | {"twin"}
+    t.tags.discard("alias")
+    if c.dflt is not None:
+        t.dflt = rename_file(c.dflt)
+    if c.cfg is not None:
+        t.cfg = dict(c.cfg)
+        t.cfg["items"] = rename_file(c.cfg["items"])
+    return t
+
+
+def has_legacy(c):
+    return any(n in SPEC_ALIAS for f in file_lists(c) for n, _ in f)
+
+
+def file_lists(c):
+    fl = []
+    if c.dflt is not None:
+        fl.append(c.dflt)
+    if c.cfg is not None and c.cfg["state"] == "file":
+        fl.append(c.cfg["items"])
+    return fl
+
+
+def twin_conditions(c):
+    """(no_double, no_shadowed) of alias_equivalence, required of every file of the case (the loaded one is among them)"""
+    cli_opts = set()
+    for x in c.cli:
+        o = spec_resolve(x["name"], x["kind"])
+        if o is not None:
+            cli_opts.add(o["name"])
+    nd = ns = True
+    for f in file_lists(c):
+        names = set(n for n, _ in f)
+        for a, cn in SPEC_ALIAS.items():
+            if a in names and cn in names:
+                nd = False
+            if a in names and cn in cli_opts:
+                ns = False
+    return nd, ns
+
+
+def twin_statement(who, st, st2, vars1, vars2, nd, ns):
+    """the statement of alias_equivalence on one pair of outcomes; -> None or a description of what fails"""
+    if not nd:
+        return None
+    if st == "run" and st2 != "run":
+        return "%s: the invocation runs with legacy names but is %s with the current names in their place" % (who, st2)
+    if (st == "stop") != (st2 == "stop"):
+        return "%s: one of the two invocations stops, the other does not (%s / %s)" % (who, st, st2)
+    if st2 == "fail" and st != "fail":
+        return "%s: the invocation fails with the current names but is %s with the legacy names" % (who, st)
+    if ns and st != st2:
+        return "%s: status %s with legacy names, %s with the current names (no legacy line is overridden by the command line)" % (who, st, st2)
+    if st == "run" and st2 == "run":
+        for k, v in vars1.items():
+            if k in UNINIT or v is None or k not in vars2:
+                continue
+            if not same(v, vars2[k]):
+                return "%s: %s = %r with legacy names, %r with the current names" % (who, k, v, vars2[k])
+    return None
+
+
+def oracle_alias_twin(ctx, c, res, t, rest):
+    """legacy names in a config file act exactly like their current names (C20): the implementation's outcome on the case and
+    on its twin, judged by the statement of alias_equivalence.  -> (ok, model_disagreement or None)"""
+    nd, ns = twin_conditions(c)
+    i, i2 = res["impl"], rest["impl"]
+    bad = twin_statement("implementation", status(i), status(i2), impl_vars(i) if status(i) == "run" else {},
+                         impl_vars(i2) if status(i2) == "run" else {}, nd, ns)
+    if bad:
+        ctx.violation("impl-oracle", "legacy names do not act like the current names - " + bad, case=c.replay(),
+                      observed=dict(status=status(i), status_renamed=status(i2)), expected="same outcome",
+                      sig=dict(kind="options", clause="alias-equivalence"))
+    ctx.case_done(("twin", c.cid), nd)
+    ctx.count("twin-judged" if nd else "twin-both-names")
+    if nd and not ns:
+        ctx.count("twin-shadowed")
+    # the theorem, on the extracted model's own output (a disagreement is a defect of the machinery, reported as such)
+    m, m2 = res["model"], rest["model"]
+    md = None
+    if m is not None and m2 is not None:
+        md = twin_statement("model", status(m), status(m2), model_vars(c, m) if status(m) == "run" else {},
+                            model_vars(t, m2) if status(m2) == "run" else {}, nd, ns)
+    return (bad is None, md)
+
+
+def gen_override(ctx, cid):
+    """a legal invocation whose saved file is re-read with extra command-line options: `inovesa <extra> --config saved.cfg`"""
+    rng = ctx.rng
+    inf = info()
+    tab = inf["table"]
+    c = gen_case(ctx, cid, rng.choice(["legal", "alias", "short"]))
+    cand = [o for o in tab.values() if o["kind"] == "KCanon" and o["cli"] and o["ty"] != "TFlag" and o["name"] != inf["cfgopt"]]
+    given = [tab[x["opt"]] for x in c.cli if x.get("opt") in tab and tab[x["opt"]] in cand]
+    pick = rng.sample(cand, rng.randint(1, 3))
+    if given and rng.random() < 0.6:
+        pick.append(rng.choice(given))          # override something the original invocation gave
+    if rng.random() < 0.3:
+        pick += [o for o in cand if o["name"] in ("SynchrotronFrequency", "alpha0")][:rng.randint(1, 2)]
+    seen = set()
+    for o in pick:
+        if o["name"] in seen:
+            continue
+        seen.add(o["name"])
+        pool = LEGAL[o["ty"]]
+        ts = [rng.choice(pool) for _ in range(rng.randint(1, 3))] if o["ty"] == "TVecFloat" else [rng.choice(pool)]
+        if o["ty"] == "TString" and ts[0].startswith("-"):
+            ts = ["x"]
+        k = "S" if o["short"] and rng.random() < 0.4 else "L"
+        c.xcli.append(dict(kind=k, name=o["short"] if k == "S" else o["name"], toks=ts, opt=o["name"]))
+    c.tags.add("reload-override")
+    return c
+
+
 # ------------------------------------------------------------------------------------ property oracles (on the implementation)
 
 def spec_resolve(name, kind):
@@ -717,25 +963,31 @@ def spec_expect(c):
     elif c.dflt is not None:
         items = c.dflt
     cfg = {}
+    names = {}
     both = False
     for n, ts in (items or []):
         o = tab.get(n)
-        if o is None or not o["file"]:
+        if n in SPEC_ALIAS and SPEC_ALIAS[n] in tab:
+            key, ty = SPEC_ALIAS[n], tab[SPEC_ALIAS[n]]["ty"]      # a legacy name of the property, whatever the table says
+        elif o is None or not o["file"]:
             return ("fail", "unknown-cfg")
-        key = SPEC_ALIAS.get(n, o["canon"]) if o["kind"] == "KAlias" else n
+        else:
+            key, ty = (o["canon"] if o["kind"] == "KAlias" else n), o["ty"]
         if n in cli:
             continue            # same name on the command line: the value is never converted nor used (explored boundary, docs/built/C20.md)
-        if any(spec_malformed(o["ty"], t) for t in ts):
-            return ("fail", "neg-unsigned" if all(value(o["ty"], t) is not None for t in ts) else "bad-cfg")
-        if key in cfg and o["ty"] != "TVecFloat":
-            if o["kind"] == "KAlias" or n != cfg[key][1]:
-                both = True         # legacy and current name in one file: the statement does not say
-            else:
+        if any(spec_malformed(ty, t) for t in ts):
+            return ("fail", "neg-unsigned" if all(value(ty, t) is not None for t in ts) else "bad-cfg")
+        seen = names.setdefault(key, [])
+        if seen and ty != "TVecFloat":
+            if n in seen:
                 return ("fail", "repeat-cfg")
+            both = True             # legacy and current name in one file: the statement does not say (the model: the
+                                    # current name wins, the legacy line is converted all the same - both_names_current_wins)
+        seen.append(n)
         if key in cli:
             continue            # legacy name, current name on the command line: converted (checked above) but not used
-        cfg.setdefault(key, [[], n])
-        cfg[key][0] += ts
+        cfg.setdefault(key, [])
+        cfg[key] += ts
     exp = {}
     for o in tab.values():
         if o["kind"] != "KCanon" or o["ty"] == "TFlag":
@@ -745,7 +997,7 @@ def spec_expect(c):
         if n in cli:
             ts = cli[n]
         elif n in cfg:
-            ts = cfg[n][0]
+            ts = cfg[n]
         else:
             d = o["defcli"] if o["cli"] else o["deffile"]
             exp[g] = default_value(o["ty"], d) if d is not None else init_value(o["var"], o["ty"])
@@ -829,8 +1081,49 @@ def oracle_c13(ctx, c, res):
             ctx.violation("impl-oracle", "%s differs after save and reload (%s)" % (k, cause), case=c.replay(),
                           observed={k: b.get(k)}, expected={k: v}, sig=dict(kind="roundtrip", var=k, cause=cause))
             ok = False
+    if getattr(c, "xcli", None):
+        ok = oracle_override(ctx, c, res, a) and ok
     nontriv = any(not same(a[k], d) for k, d in default_vars().items() if k in a)
     ctx.case_done(("c13", c.cid), nontriv)
+    return ok
+
+
+def oracle_override(ctx, c, res, a):
+    """`inovesa <extra options> --config saved.cfg`: the extra options take their command-line values, every other getter
+    is as after the original invocation (C13 with C20's precedence)"""
+    i = res["impl"]
+    tab = info()["table"]
+    if not i.get("xstatus") or status(i, "x") != "run":
+        msg = unesc(i["xmessage"][0][0]) if i.get("xmessage") and i["xmessage"][0] else ""
+        ctx.violation("impl-oracle", "the saved configuration is not accepted together with %s: %s (%s)" %
+                      (c.xargv(), status(i, "x") if i.get("xstatus") else "no output", msg[:120]), case=c.replay(),
+                      observed=dict(saved=res["saved"]), expected="run", sig=dict(kind="roundtrip", clause="reload-override-status"))
+        return False
+    b = impl_vars(i, "x")
+    over = {}
+    for x in c.xcli:
+        o = tab[x["opt"]]
+        vs = [value(o["ty"], t) for t in x["toks"]]
+        over[label_of(o)] = vs if o["ty"] == "TVecFloat" else vs[0]
+    cfgvar = info()["prog"]["cfgvar"]
+    lbl = var_labels()
+    devnull = set(lbl.get(v, v) for kk, v in info()["prog"]["tail"] if kk == "devnull")
+    ok = True
+    for k, v in a.items():
+        if k == cfgvar or k in NO_GETTER or k in ignored_vars() or k == "_forcerun":
+            continue
+        if k in over:
+            v = over[k]
+            if v == "/dev/null" and k in devnull:
+                v = ""            # glue: parse() clears these members after the stores
+        elif k == "alpha0" and (a.get("f_s") != 0):
+            continue      # written as 0 by design when a synchrotron frequency is in force
+        if not same(v, b.get(k)):
+            ctx.violation("impl-oracle", "%s after re-reading the saved file with %s: %r, expected %r" % (k, c.xargv(), b.get(k), v),
+                          case=c.replay(), observed={k: b.get(k)}, expected={k: v},
+                          sig=dict(kind="roundtrip", var=k, cause="reload-override"))
+            ok = False
+    ctx.count("reload-override-judged")
     return ok
 
 
